@@ -346,6 +346,10 @@ func cmdC09Tree(args []string) error {
 		outDir := filepath.Join(root, "out")
 		ar := realApplyPatch(patch, applyOpts{Bowl: "fresh", OldDir: dmg, OutDir: outDir,
 			WrapPool: func(p lake.Pool, _ *tlc.Container) lake.Pool {
+				if k%4 == 1 {
+					// the pool under the safekeeper hands over the last bytes of a file together with io.EOF
+					p = &eofPool{Pool: p}
+				}
 				sk, err := newSafeKeeper(p, sig)
 				if err != nil {
 					panic(err)
